@@ -192,6 +192,39 @@ class FakeDriver:
         self.inst_coll_manager = mgr
 
 
+class _Secret:
+    def __init__(self):
+        import base64
+        self.data = {'key.json': base64.b64encode(b'{}').decode(), 'token': base64.b64encode(b'tok').decode()}
+
+
+class _ServiceAccount:
+    secrets = None
+
+
+class FakeK8sCache:
+    async def read_secret(self, name, namespace):
+        return _Secret()
+
+    async def read_service_account(self, name, namespace):
+        return _ServiceAccount()
+
+
+async def scheduler_record(app, batch_id: int, job_id: int, attempt_id: str) -> Dict[str, Any]:
+    """the record the pool scheduler hands to batch.driver.job.schedule_job for one Ready job"""
+    rec = await app['db'].select_and_fetchone(
+        """
+SELECT jobs.batch_id, jobs.job_id, jobs.spec, jobs.cores_mcpu, jobs.regions_bits_rep, jobs.job_group_id, jobs.n_max_attempts, time_ready,
+  batches.userdata, batches.user, batches.format_version
+FROM jobs
+LEFT JOIN batches ON batches.id = jobs.batch_id
+LEFT JOIN jobs_telemetry ON jobs.batch_id = jobs_telemetry.batch_id AND jobs.job_id = jobs_telemetry.job_id
+WHERE jobs.batch_id = %s AND jobs.job_id = %s;
+""", (batch_id, job_id))
+    rec['attempt_id'] = attempt_id
+    return rec
+
+
 async def make_driver_app(minidb: MiniDB) -> App:
     """make_app + the keys batch.driver.job / canceller / instance read"""
     app = await make_app(minidb)
@@ -207,6 +240,7 @@ async def make_driver_app(minidb: MiniDB) -> App:
     app['cancel_running_state_changed'] = asyncio.Event()
     app['async_worker_pool'] = AsyncWorkerPool(parallelism=4, queue_size=100)
     app['resource_name_to_id'] = {}
+    app['k8s_cache'] = FakeK8sCache()
     from batch.driver.main import refresh_globals_from_db
     await refresh_globals_from_db(app, db)
     return app
